@@ -175,7 +175,8 @@ fn shapes2(kind: usize, a: d2::Vector<f64>, b: d2::Vector<f64>) -> (Box<dyn Shap
     let hs = |n: d2::Vector<f64>| -> Box<dyn Shape2> { Box::new(HalfSpace::new(d2::na::Unit::new_unchecked(n))) };
     let cu = |he: d2::Vector<f64>| -> Box<dyn Shape2> { Box::new(Cuboid::new(he)) };
     let ba = |r: f64| -> Box<dyn Shape2> { Box::new(Ball::new(r)) };
-    match kind { 0 => (ba(a.x), ba(b.x)), 1 => (cu(a), ba(b.x)), 2 => (ba(a.x), cu(b)), 3 => (hs(a), cu(b)), _ => (cu(a), hs(b)) }
+    let ca = |p: d2::Vector<f64>| -> Box<dyn Shape2> { Box::new(Capsule::new_y(p.x, p.y)) };
+    match kind { 0 => (ba(a.x), ba(b.x)), 1 => (cu(a), ba(b.x)), 2 => (ba(a.x), cu(b)), 3 => (hs(a), cu(b)), 5 => (ca(a), ca(b)), _ => (cu(a), hs(b)) }
 }
 /// `seq2 kind a b pred nposes pose*` → `oneshot(flag dist)* ;; manifold after every call`
 fn seq2(a: &mut Args) -> String {
@@ -254,6 +255,54 @@ fn seq2t(a: &mut Args) -> String {
     format!("{};; {}", obs, out)
 }
 
+// ---------------------------------------------------------------- 2-D capsule / capsule (closed form, two-contact branch)
+/// `cc2 pos12 a1 b1 r1 a2 b2 r2 pred manifold` → the manifold after `contact_manifold_capsule_capsule` (2-D), capsules with
+/// arbitrary axes (as the 2-D HeightField builds them: `Capsule::new(a, b, 0.0)`)
+fn cc2(a: &mut Args) -> String {
+    use crate::p2::shape::Capsule;
+    let p = d2::iso(a);
+    let a1 = d2::p(a); let b1 = d2::p(a); let r1 = a.f();
+    let a2 = d2::p(a); let b2 = d2::p(a); let r2 = a.f();
+    let pred = a.f();
+    let mut m = man2(a);
+    crate::p2::query::details::contact_manifold_capsule_capsule(&p, &Capsule::new(a1, b1, r1), &Capsule::new(a2, b2, r2), pred, &mut m);
+    fman2(&m)
+}
+
+/// `hf2 flipped nh h* scale(2) nremoved idx* s2type q(2) pred nposes pose*`; s2type: 0 ball (radius q.x) · 1 capsule_y (half height q.x,
+/// radius q.y)  → `ncells (1 a b | 0)* ;; per call: nman (subshape1 subshape2 manifold)*`
+fn hf2(a: &mut Args) -> String {
+    use crate::p2::query::{DefaultQueryDispatcher, PersistentQueryDispatcher};
+    use crate::p2::shape::*;
+    let flipped = a.b();
+    let nh = a.u();
+    let hs: Vec<f64> = (0..nh).map(|_| a.f()).collect();
+    let scale = d2::v(a);
+    let mut hf = HeightField::new(d2::na::DVector::from_vec(hs), scale);
+    let nr = a.u();
+    for _ in 0..nr { let i = a.u(); if i < hf.num_cells() { hf.set_segment_removed(i, true); } }
+    let ty2 = a.u(); let q = d2::v(a);
+    let other: Box<dyn Shape2> = if ty2 == 0 { Box::new(Ball::new(q.x)) } else { Box::new(Capsule::new_y(q.x, q.y)) };
+    let pred = a.f();
+    let n = a.u();
+    let poses: Vec<_> = (0..n).map(|_| d2::iso(a)).collect();
+    let mut obs = format!("{} ", hf.num_cells());
+    for i in 0..hf.num_cells() {
+        match hf.segment_at(i) { Some(sg) => obs += &format!("1 {} {} ", d2::fp(&sg.a), d2::fp(&sg.b)), None => obs += "0 " }
+    }
+    let mut manifolds: Vec<M2> = Vec::new();
+    let mut ws = None;
+    let mut out = String::new();
+    for p in &poses {
+        let r = if flipped { DefaultQueryDispatcher.contact_manifolds(p, &*other, &hf, pred, &mut manifolds, &mut ws) }
+                else { DefaultQueryDispatcher.contact_manifolds(p, &hf, &*other, pred, &mut manifolds, &mut ws) };
+        if r.is_err() { return "unsupported".into(); }
+        out += &format!("{} ", manifolds.len());
+        for m in manifolds.iter() { out += &format!("{} {} {} ", m.subshape1, m.subshape2, fman2(m)); }
+    }
+    format!("{};; {}", obs, out.trim_end())
+}
+
 // ---------------------------------------------------------------- exec
 pub fn exec(func: &str, a: &mut Args) -> String {
     match func {
@@ -277,6 +326,8 @@ pub fn exec(func: &str, a: &mut Args) -> String {
             fman3(&m) }
         "seq3" | "seq3o" => seq3(a),
         "seq2" => seq2(a),
+        "cc2" => cc2(a),
+        "hf2" => hf2(a),
         "seq3t" => seq3t(a),
         "seq2t" => seq2t(a),
         "comp3" => comp3(a, false),
@@ -717,6 +768,146 @@ fn gen_seq2t(r: &mut Rng, kind: usize, maxposes: usize) -> (String, String) {
     ("seq2t".into(), s)
 }
 
+/// 2-D capsule/capsule, structured families (all built in the frame of capsule 1, then capsule 2 is pulled back through `pos12`):
+/// fam 0  axes (anti)parallel up to a tilt of either sign, 1e-9 .. 0.45 rad (the two-contact branch switches off at 22.5°), any
+///        lengthwise overlap (contained, partial at either end, end to end, disjoint), either side, gaps from deep penetration to
+///        beyond the prediction;  fam 1  tilt exactly 0 (incl. collinear axes);  fam 2  unrelated segments;
+/// fam 3  degenerate: point-like axes, zero radii, tilt at the 22.5° switch, lengthwise offsets that put the normal at the
+///        `sin(pi/8)` switch.
+fn gen_cc2(r: &mut Rng, lat: bool, fam: usize) -> (String, String) {
+    let pos12 = d2::gen_iso(r, lat, 4.0);
+    let rad = |r: &mut Rng| if lat { *r.pick(&[0.0, 0.25, 0.5, 1.0]) } else { match r.below(5) { 0 => 0.0, _ => r.logu(1e-2, 3.0) } };
+    let (r1, r2) = (rad(r), rad(r));
+    let u = unit2(r, lat);
+    let v = d2::Vector::new(-u.y, u.x);
+    let c1 = d2::gen_v(r, lat, 3.0);
+    let h1 = if lat { *r.pick(&[0.5, 1.0, 2.0, 4.0]) } else { r.logu(5e-2, 20.0) };
+    let h2 = if lat { *r.pick(&[0.5, 1.0, 2.0, 4.0]) } else { h1 * r.logu(0.1, 10.0) };
+    let (mut a1, mut b1) = (c1 - u * h1, c1 + u * h1);
+    let pred = if lat { *r.pick(&[0.0, 0.25, 0.5]) } else { *r.pick(&[0.0, 1e-3, 0.05, 0.2]) * (h1 + h2 + r1 + r2).min(2.0) };
+    let (a2w, b2w);
+    if fam == 2 {
+        let c2 = c1 + d2::gen_v(r, lat, 1.0) * (0.6 * (h1 + h2 + r1 + r2));
+        let w = unit2(r, lat);
+        a2w = c2 - w * h2; b2w = c2 + w * h2;
+    } else {
+        // direction of axis 2: `u` tilted
+        let w = if fam == 1 { u } else if lat {
+            u + v * *r.pick(&[0.0625, -0.0625, 0.125, -0.125, 0.25, -0.25, 0.5, -0.5, 0.015625, -0.015625])      // exact slopes
+        } else {
+            let t = match if fam == 3 { 5 } else { r.below(5) } {
+                0 => r.logu(1e-9, 1e-4), 1 | 2 => r.logu(1e-3, 0.39), 3 => r.uniform(0.0, 0.45),
+                4 => std::f64::consts::FRAC_PI_8 + r.uniform(-1.0, 1.0) * *r.pick(&[1e-12, 1e-9, 1e-6, 1e-3]),
+                _ => *r.pick(&[0.0, 0.1, std::f64::consts::FRAC_PI_8]) + r.uniform(-1.0, 1.0) * 1e-3 } * if r.bool() { 1.0 } else { -1.0 };
+            u * t.cos() + v * t.sin()
+        };
+        let w = if r.bool() { w } else { -w };                        // anti-parallel
+        // lengthwise offset of the centres, in units of h1 + h2
+        let s = if lat { *r.pick(&[0.0, 0.25, -0.25, 0.5, -0.5, 1.0, -1.0, 1.25, -1.25]) } else {
+            match r.below(6) { 0 => 0.0, 1 => if r.bool() { 1.0 } else { -1.0 }, 2 => r.uniform(-1.5, 1.5), _ => r.uniform(-1.0, 1.0) } };
+        let side = if r.bool() { 1.0 } else { -1.0 };
+        let gap = if lat { *r.pick(&[0.0, 0.25, -0.25, 0.5, 1.0]) } else {
+            match r.below(6) { 0 => r.uniform(-1e-6, 1e-6), 1 => pred + r.uniform(-1e-3, 1e-3), 2 => r.uniform(0.0, 1.5) * (pred + 0.05),
+                               _ => r.uniform(-0.9, 0.3) * (r1 + r2).max(0.05) } };
+        // fam 3 (random half): slide capsule 2 past the end of capsule 1 so that the normal leans towards the axis
+        let lean = if fam == 3 && !lat && r.bool() { r.uniform(0.0, 1.2) * (r1 + r2 + gap).abs().max(0.05) } else { 0.0 };
+        let lift = if fam == 1 && r.below(4) == 0 { 0.0 } else { r1 + r2 + gap };                 // collinear axes
+        let c2 = c1 + u * (s * (h1 + h2) + s.signum() * lean) + v * (side * lift);
+        a2w = c2 - w * h2; b2w = c2 + w * h2;
+    }
+    let (mut a2w, mut b2w) = (a2w, b2w);
+    if fam == 3 {
+        match r.below(4) { 0 => { b1 = a1; } 1 => { b2w = a2w; } 2 => { b1 = a1; b2w = a2w; } _ => {} }
+        if !lat && r.below(4) == 0 { let e = d2::Vector::new(r.uniform(-1.0, 1.0), r.uniform(-1.0, 1.0)) * *r.pick(&[1e-9, 1e-8, 3e-8]); b1 = a1 + e; }
+    }
+    if r.below(8) == 0 { std::mem::swap(&mut a1, &mut b1); }
+    if r.below(8) == 0 { std::mem::swap(&mut a2w, &mut b2w); }
+    let a2 = pos12.inverse_transform_point(&d2::Point::from(a2w));
+    let b2 = pos12.inverse_transform_point(&d2::Point::from(b2w));
+    // prior manifold: empty or stale
+    let npts = *r.pick(&[0usize, 0, 1, 2]);
+    let pts: Vec<_> = (0..npts).map(|_| (d2::gen_p(r, lat, 2.0), d2::gen_p(r, lat, 2.0), r.coord(lat, 1.0))).collect();
+    ("cc2".into(), format!("{} {} {} {} {} {} {} {} {}", d2::hiso(&pos12), d2::hp(&d2::Point::from(a1)), d2::hp(&d2::Point::from(b1)), hx(r1),
+        d2::hp(&a2), d2::hp(&b2), hx(r2), hx(pred), hman2(&unit2(r, lat), &unit2(r, lat), &pts)))
+}
+
+/// 2-D capsule_y on capsule_y through the dispatcher: capsule 2 lies along capsule 1 (side by side) and rocks by a few degrees of
+/// either sign about the parallel position, slides lengthwise, separates and comes back.
+fn gen_seq2_cc(r: &mut Rng, lat: bool, maxposes: usize) -> (String, String) {
+    let cap = |r: &mut Rng| d2::Vector::new(if lat { *r.pick(&[0.5, 1.0, 2.0]) } else { r.logu(0.1, 4.0) }, if lat { *r.pick(&[0.25, 0.5]) } else { r.logu(0.02, 1.0) });
+    let (a, b) = (cap(r), cap(r));
+    let n = 1 + r.below(maxposes as u64) as usize;
+    let side = if r.bool() { 1.0 } else { -1.0 };
+    let flip = r.bool();                                // capsule 2 upside down (anti-parallel axes)
+    let mut ang = 0.0f64; let mut slide = 0.0f64; let mut gap = if lat { *r.pick(&[0.0, -0.125, 0.125]) } else { r.uniform(-0.5, 0.2) * (a.y + b.y) };
+    let pred = if lat { *r.pick(&[0.0, 0.25, 0.5]) } else { *r.pick(&[0.0, 1e-3, 0.05, 0.2]) };
+    let mut s = format!("5 {} {} {} {}", d2::hv(&a), d2::hv(&b), hx(pred), n);
+    for _ in 0..n {
+        let rot = d2::na::UnitComplex::new(ang + if flip { std::f64::consts::PI } else { 0.0 });
+        let rot = if lat && ang == 0.0 { d2::na::Unit::new_unchecked(d2::na::Complex::new(if flip { -1.0 } else { 1.0 }, 0.0)) } else { rot };
+        let t = d2::Vector::new(side * (a.y + b.y + gap), slide);
+        let pose = d2::Isometry::from_parts(d2::na::Translation2::from(t), rot);
+        s += " "; s += &d2::hiso(&pose);
+        match r.below(10) {
+            0 | 1 | 2 | 3 => { ang = if lat { *r.pick(&[0.0, 0.0625, -0.0625, 0.125, -0.125]) } else { r.uniform(-0.3, 0.3) * *r.pick(&[1.0, 0.1, 1e-3]) }; }
+            4 | 5 => { slide = if lat { *r.pick(&[0.0, 0.5, -0.5, 1.0, -1.0]) * (a.x + b.x) } else { r.uniform(-1.2, 1.2) * (a.x + b.x) }; }
+            6 => { gap = if lat { *r.pick(&[0.0, -0.125, 0.125, 0.5]) } else { r.uniform(-0.5, 0.4) * (a.y + b.y) }; }
+            7 => { gap += 40.0; }
+            8 => { gap = 0.0; ang = 0.0; }
+            _ => {}
+        }
+        if gap > 20.0 && r.bool() { gap -= 40.0; }
+    }
+    ("seq2".into(), s)
+}
+
+/// 2-D HeightField (its cells are zero-radius capsules) against a ball or a capsule lying along the surface: rocking about the
+/// direction of the cell underneath (both tilt signs), sliding over cell boundaries and removed cells, separation / re-contact;
+/// both argument orders
+fn gen_hf2(r: &mut Rng, lat: bool, maxposes: usize) -> (String, String) {
+    let flipped = r.bool();
+    let nh = 2 + r.below(6) as usize;
+    let hs: Vec<f64> = (0..nh).map(|_| if lat { r.range(-2, 2) as f64 * 0.125 } else { r.uniform(-1.0, 1.0) * *r.pick(&[0.02, 0.2, 1.0]) }).collect();
+    let scale = if lat { d2::Vector::new(*r.pick(&[2.0, 4.0, 8.0]), *r.pick(&[1.0, 2.0])) } else { d2::Vector::new(r.uniform(1.0, 10.0), r.uniform(0.5, 3.0)) };
+    let ncell = nh - 1;
+    let removed: Vec<usize> = if ncell > 2 && r.below(4) == 0 { vec![r.below(ncell as u64) as usize] } else { vec![] };
+    let ball = r.below(4) == 0;
+    let q = if ball { d2::Vector::new(if lat { *r.pick(&[0.25, 0.5, 1.0]) } else { r.logu(0.05, 2.0) }, 0.0) }
+            else { d2::Vector::new(if lat { *r.pick(&[0.5, 1.0, 2.0]) } else { r.logu(0.1, 4.0) }, if lat { *r.pick(&[0.0, 0.25, 0.5]) } else { if r.below(6) == 0 { 0.0 } else { r.logu(0.02, 1.0) } }) };
+    let rad = if ball { q.x } else { q.y };
+    let pred = if lat { *r.pick(&[0.0, 0.25]) } else { *r.pick(&[0.0, 1e-3, 0.05, 0.2]) };
+    let mut s = format!("{} {} {} {} {}", b(flipped), nh, hxs(hs.iter()), d2::hv(&scale), removed.len());
+    for i in &removed { s += &format!(" {}", i); }
+    s += &format!(" {} {} {}", if ball { 0 } else { 1 }, d2::hv(&q), hx(pred));
+    let n = 1 + r.below(maxposes as u64) as usize;
+    s += &format!(" {}", n);
+    let w = scale.x / ncell as f64;
+    let vert = |i: usize| d2::Vector::new((-0.5 + i as f64 / ncell as f64) * scale.x, hs[i] * scale.y);
+    let mut cell = r.below(ncell as u64) as usize; let mut fr = 0.5f64; let mut tilt = 0.0f64;
+    let mut gap = if lat { *r.pick(&[0.0, -0.125, 0.125]) } else { r.uniform(-0.3, 0.2) * rad.max(0.1) };
+    let up = if r.bool() { 1.0 } else { -1.0 };                          // the height field is two-sided
+    for _ in 0..n {
+        let (p0, p1) = (vert(cell), vert(cell + 1));
+        let d = (p1 - p0) / (p1 - p0).norm();
+        let nrm = d2::Vector::new(-d.y, d.x) * up;
+        let c = p0 + (p1 - p0) * fr + nrm * (rad + gap);
+        // capsule_y axis is the y axis: align it with the cell direction, plus the tilt
+        let ang = d.y.atan2(d.x) - std::f64::consts::FRAC_PI_2 + tilt;
+        let pose = d2::Isometry::from_parts(d2::na::Translation2::from(c), d2::na::UnitComplex::new(ang));
+        s += " "; s += &d2::hiso(&if flipped { pose.inverse() } else { pose });
+        match r.below(10) {
+            0 | 1 | 2 | 3 => { tilt = r.uniform(-0.3, 0.3) * *r.pick(&[1.0, 0.1, 1e-3]); }
+            4 | 5 => { fr += r.uniform(-1.0, 1.0) * (q.x / w).min(1.0); while fr > 1.0 && cell + 1 < ncell { fr -= 1.0; cell += 1; } while fr < 0.0 && cell > 0 { fr += 1.0; cell -= 1; } }
+            6 => { gap = r.uniform(-0.3, 0.4) * rad.max(0.1); }
+            7 => { gap += 40.0; }
+            8 => { tilt = 0.0; if r.bool() { tilt = std::f64::consts::PI; } }
+            _ => {}
+        }
+        if gap > 20.0 && r.bool() { gap -= 40.0; }
+    }
+    ("hf2".into(), s)
+}
+
 pub fn gen(r: &mut Rng, thorough: bool) -> Vec<(String, String)> {
     let k = if thorough { 10 } else { 1 };
     let mut v = Vec::new();
@@ -764,6 +955,14 @@ pub fn gen(r: &mut Rng, thorough: bool) -> Vec<(String, String)> {
     }
     for _ in 0..40 * k {
         for kind in 0..4 { v.push(gen_seq3t(r, kind, 16)); v.push(gen_seq2t(r, kind, 16)); }
+    }
+    for it in 0..1200 * k {
+        let lat = it % 2 == 0;
+        v.push(gen_cc2(r, lat, match it % 8 { 0 | 1 | 2 | 3 => 0, 4 => 1, 5 | 6 => 2, _ => 3 }));
+    }
+    for it in 0..120 * k {
+        v.push(gen_seq2_cc(r, it % 2 == 0, 20));
+        v.push(gen_hf2(r, it % 4 == 0, 16));
     }
     v
 }
